@@ -92,7 +92,9 @@ fn gen_case(rng: &mut Rng, out: &mut Out, tier: &str) {
             75..=81 => format!("ev cancel_orders {}", gen_filter(rng, nex, nins)),
             82..=88 => format!("ev close_positions {}", gen_filter(rng, nex, nins)),
             89..=93 => {
-                if has_pos[i] {
+                if has_pos[i] && rng.chance(40) {
+                    format!("ev reduce {i}")
+                } else if has_pos[i] {
                     has_pos[i] = false;
                     format!("ev flat {i}")
                 } else {
